@@ -255,6 +255,8 @@ def gen_pipeline(rng, t, length, opts, st=None, depth=None):
         n = weighted(rng, cands)
         if n == 'TEE':
             nb = rng.choice([2, 2, 3, 4])
+            if rng.random() < 0.06:
+                nb = rng.choice([8, 9, 10, 17])       # many features in one tee: per-branch flags packed into small fields
             join = rng.choice(['zip', 'merge', 'combine_latest'])
             branches = []
             any_take = False
